@@ -251,6 +251,84 @@ def fresh_reference(k):
     return out
 
 
+# --------------------------------------------------------------------------- 3b. pool histories
+
+def pool_docs():
+    """A pool of small documents that together exercise every construct with same-line and own-line
+    comments, plus sequences whose items are path / string / number literals followed by a comment."""
+    docs = []
+    atoms = [" # c§\n", " /* c§ */ ", "\n# c§\n"]
+    for prog in g.programs(1):
+        for case in g.cases_for(prog, [" "] + atoms, 1, file_gaps=False):
+            adm = g.admit(case)
+            if adm:
+                docs.append(adm[0])
+    seq = ["list", "list1", "paren", "concat", "call", "set1", "let", "select", "update"]
+    lits = ["path", "abspath", "homepath", "spath", "str", "istr", "int", "float", "true", "pathinterp", "strinterp"]
+    for c in seq:
+        for h in range(g.n_holes(c)):
+            for lit in lits:
+                kids = [g.X] * g.n_holes(c)
+                kids[h] = g.mk(lit)
+                prog = g.P(c, tuple(kids))
+                for case in g.cases_for(prog, [" "] + atoms, 1, file_gaps=False):
+                    adm = g.admit(case)
+                    if adm:
+                        docs.append(adm[0])
+    out = []
+    seen = set()
+    for d in docs:
+        if d not in seen:
+            seen.add(d)
+            out.append(d)
+    return out
+
+
+def _rt(text):
+    from nix_manipulator import parse
+
+    try:
+        src = parse(text)
+        return (src.rebuild(), src.rebuild())
+    except Exception as e:
+        return ("EXC", type(e).__name__)
+
+
+def pool_reference(chunk):
+    """Each document in its own forked child of a process that has imported the library but never
+    used it on another document."""
+    import os
+    import pickle
+
+    out = []
+    for text in chunk:
+        r, w = os.pipe()
+        pid = os.fork()
+        if pid == 0:
+            try:
+                os.close(r)
+                os.write(w, pickle.dumps(_rt(text)))
+            finally:
+                os._exit(0)
+        os.close(w)
+        buf = b""
+        while True:
+            b = os.read(r, 65536)
+            if not b:
+                break
+            buf += b
+        os.close(r)
+        os.waitpid(pid, 0)
+        out.append(pickle.loads(buf))
+    return out
+
+
+def pool_history(order_name_docs):
+    """Process the whole pool in one process, in the given order."""
+    name, docs = order_name_docs
+    return name, [_rt(t) for t in docs]
+
+
 # --------------------------------------------------------------------------- 4. configurations
 
 def digest_main():
@@ -338,12 +416,26 @@ def run(prop: str, tier: str) -> core.Report:
     # 3 histories
     k = 4 if tier == "quick" else 5
     ref = fresh_reference(k)
-    orders = list(itertools.permutations(range(k)))
-    hres = core.pmap(histories_work, orders, chunksize=4)
+    perm_orders = list(itertools.permutations(range(k)))
+    hres = core.pmap(histories_work, perm_orders, chunksize=4)
     for order, results in hres:
         for i, r in zip(order, results):
             if tuple(r) != ref[i]:
                 fl.append(core.Failure(prop="C15", sig=f"history|{order}|{i}", cls="history-dependent-result", case={"kind": "c15-history", "order": list(order), "doc": i}, detail=f"processing order {order}: document {i} gave {r!r}, fresh process gave {ref[i]!r}", group="history"))
+    # 3b pool histories: every ordered pair (A before B) of the pool occurs in the forward or the reverse pass
+    pool = pool_docs()
+    chunks = [pool[i : i + 100] for i in range(0, len(pool), 100)]
+    refs = [r for rs in core.pmap(pool_reference, chunks, chunksize=1) for r in rs]
+    orders = [("forward", pool), ("reverse", pool[::-1]), ("interleaved", pool[::2] + pool[1::2])]
+    pool_bad = 0
+    for name, results in core.pmap(pool_history, orders, chunksize=1, workers=3):
+        docs_in_order = dict(orders)[name]
+        ref_by_text = dict(zip(pool, refs))
+        for text, got in zip(docs_in_order, results):
+            if got != ref_by_text[text]:
+                pool_bad += 1
+                if pool_bad <= 5:
+                    fl.append(core.Failure(prop="C15", sig=f"pool-history|{name}|{text!r}", cls="history-dependent-result", case={"kind": "c15-pool", "order": name, "text": text}, detail=f"pool order {name!r}: {text!r} gave {got!r} after other documents, {ref_by_text[text]!r} in a fresh process", group="history"))
     # 4 configurations
     cfg = config_digests()
     digs = {json.dumps(v, sort_keys=True) for v in cfg.values()}
@@ -351,18 +443,19 @@ def run(prop: str, tier: str) -> core.Report:
         fl.append(core.Failure(prop="C15", sig="config-digest", cls="configuration-dependent-result", case={"kind": "c15-config"}, detail=f"digests differ across PYTHONHASHSEED x cwd: {cfg}", group="config"))
     cov = {
         "states": total_sched + e2_states,
-        "transitions": total_sched + e2_n + len(orders) * k,
-        "traces_validated_against_impl": total_sched + len(orders),
-        "samples": [{"harness": n, **v} for n, v in list(sched_cov.items())[:3]] + [{"history_order": list(orders[core.seed() % len(orders)])}],
-        "evaluations": a.coverage["evaluations"] + e2_n + total_sched + len(orders) + len(cfg),
+        "transitions": total_sched + e2_n + len(perm_orders) * k + 3 * len(pool),
+        "traces_validated_against_impl": total_sched + len(perm_orders) + 3,
+        "samples": [{"harness": n, **v} for n, v in list(sched_cov.items())[:3]] + [{"history_order": list(perm_orders[core.seed() % len(perm_orders)])}, {"pool_document": pool[core.seed() % len(pool)]}],
+        "evaluations": a.coverage["evaluations"] + e2_n + total_sched + len(perm_orders) + len(cfg) + 4 * len(pool),
         "distinct_nontrivial": a.coverage["distinct_nontrivial"] + e2_states + total_sched,
-        "rule": "purity: every admitted E1 quick case and every state of the depth-2 edit graph of the purity documents (snapshot before/after rebuild, 3 rebuilds); schedules: every schedule of each harness with at most the stated number of preemptions (scheduling points = bytecode accesses to census objects); histories: all %d! orders of %d documents in one process vs fresh-process results; configurations: 4 hash seeds x 3 working directories, digest over %s input->output pairs" % (k, k, next(iter(cfg.values())).get("n", "?")),
+        "rule": "purity: every admitted E1 quick case and every state of the depth-2 edit graph of the purity documents (snapshot before/after rebuild, 3 rebuilds); schedules: every schedule of each harness with at most the stated number of preemptions (scheduling points = bytecode accesses to census objects); histories: all %d! orders of %d documents in one process vs fresh-process results, and a pool of small documents (every construct x comment placement, literal kinds in sequence positions) processed forward, in reverse and interleaved in one process vs each document alone in a forked pristine child; configurations: 4 hash seeds x 3 working directories, digest over %s input->output pairs" % (k, k, next(iter(cfg.values())).get("n", "?")),
         "exhaustive": not any(v["capped"] for v in sched_cov.values()),
         "schedule_harnesses": sched_cov,
         "census": census_report,
         "purity_e1": {k2: a.coverage[k2] for k2 in ("evaluations", "admitted", "outcomes")},
         "purity_e2": {"states": e2_states, "successful_transitions": e2_n},
-        "history_orders": len(orders),
+        "history_orders": len(list(itertools.permutations(range(k)))),
+        "pool_histories": {"documents": len(pool), "orders": [n for n, _ in orders], "differences": pool_bad},
         "configurations": {f"{k2[0]}@{k2[1]}": v for k2, v in cfg.items()},
     }
     return core.Report(prop="C15", level="model_checking", coverage=cov, failures=fl, assumptions=["scheduling points at every bytecode access to a shared-state object found by the census; code between two points is thread-local (tree-sitter's C parser is opaque; each thread has its own parser)", "thread count <= 3, preemption bound per harness as stated; a capped harness is reported as such", "CPython 3.13 sys.settrace opcode events and threading.Semaphore hand-off", "fresh-process results as reference for history independence"])
